@@ -152,6 +152,7 @@ type bindSock struct {
 type bindSys struct {
 	n        *vnet.Net
 	socks    []*bindSock
+	closedS  []*bindSock // closed sockets (a stale handle may be closed again)
 	next     int
 	alphabet []string
 	lastOp   *string
@@ -219,6 +220,9 @@ func (s *bindSys) Ops() []string {
 			if i >= len(s.socks) {
 				continue
 			}
+		}
+		if f[0] == "reclose" && len(s.closedS) == 0 {
+			continue
 		}
 		out = append(out, op)
 	}
@@ -317,7 +321,12 @@ func (s *bindSys) Apply(op string) (obs, sig, msg string) {
 		k := s.socks[i]
 		_ = k.conn.Close()
 		s.socks = append(s.socks[:i:i], s.socks[i+1:]...)
+		s.closedS = append(s.closedS, k)
 		obs = "close"
+	case "reclose":
+		// Close on a handle that is already closed: must not disturb whoever holds the address now
+		_ = s.closedS[len(s.closedS)-1].conn.Close()
+		obs = "reclose"
 	case "probe":
 		ip := s.ipOf(f[1])
 		port, _ := strconv.Atoi(f[2])
@@ -368,7 +377,7 @@ func (s *bindSys) Key() stateKey {
 	tbl := vnet.ZZBindTable(s.n)
 	sort.Strings(tbl)
 	// socket order matters for close(i): keep it in the key
-	return strKey(fmt.Sprint(o, tbl))
+	return strKey(fmt.Sprint(o, tbl, len(s.closedS) > 0))
 }
 
 func runC13(tier string, shard, shards int, rep *SeqReport) {
@@ -449,11 +458,25 @@ func runC13Body(tier string, shard, shards int, rep *SeqReport, lastOp, curFam *
 			}
 		}
 	}
-	balpha = append(balpha, "dial own1", "dial lo", "close 0", "close 1", "close 2",
+	balpha = append(balpha, "dial own1", "dial lo", "close 0", "close 1", "close 2", "reclose",
 		"probe own1 5000", "probe own2 5000", "probe lo 5000", "probe own1 5001", "probe own1 0")
-	bdepth, cap := 4, int64(60000)
+	bdepth, cap := 4, int64(150000)
 	if thorough {
-		bdepth, cap = 5, 400000
+		bdepth, cap = 5, 1500000
+	} else {
+		// quick: the aliases of the one bind implementation are exercised on one address only
+		var lean []string
+		for _, op := range balpha {
+			f := strings.Fields(op)
+			if (f[0] == "listenpacket" || f[0] == "dialudp") && !(f[1] == "own1" || f[1] == "any") {
+				continue
+			}
+			if f[0] == "listenudp" && f[1] == "lo" && len(f) > 3 {
+				continue
+			}
+			lean = append(lean, op)
+		}
+		balpha = lean
 	}
 	for _, ips := range [][]string{{"10.0.0.1"}, {"10.0.0.1", "10.0.0.2"}} {
 		if !mine() {
@@ -463,6 +486,38 @@ func runC13Body(tier string, shard, shards int, rep *SeqReport, lastOp, curFam *
 		*curFam = fmt.Sprint("bind ", ips)
 		r := bfs(fmt.Sprint("bind ", ips), func() seqSystem { return newBindSys(ips, balpha, lastOp) }, nil, bdepth, cap, rep)
 		rep.family("bind-table-bfs", r.transitions)
+	}
+	// a stale handle is closed again after its address has been taken over by another socket
+	if mine() {
+		var n int64
+		for _, ip1 := range []string{"own1", "any", "own2", "lo"} {
+			for _, ip2 := range []string{"own1", "any", "own2", "lo"} {
+				for _, port := range []string{"5000", "0 0"} {
+					s := newBindSys([]string{"10.0.0.1", "10.0.0.2"}, nil, lastOp)
+					p2 := port
+					ops := []string{"listenudp " + ip1 + " " + port, "close 0", "listenudp " + ip2 + " " + p2, "reclose",
+						"probe own1 0", "probe own2 0", "probe lo 0", "listenudp " + ip2 + " " + p2, "listenudp own1 5000", "listenudp any 5000", "probe own1 0"}
+					var hist []string
+					for _, op := range ops {
+						f := strings.Fields(op)
+						if f[0] == "close" && len(s.socks) == 0 || f[0] == "reclose" && len(s.closedS) == 0 {
+							continue
+						}
+						hist = append(hist, op)
+						_, sig, msg := s.Apply(op)
+						rep.Transitions++
+						if sig != "" {
+							rep.violate("bind stale-close", sig, msg, strings.Join(hist, "; "))
+							break
+						}
+					}
+					n++
+					rep.Evaluations++
+					rep.States++
+				}
+			}
+		}
+		rep.family("bind-stale-close", n)
 	}
 	// bulk: 999 / 1000 ports of 5000-5999 bound, then port 0
 	for _, k := range []int{998, 999, 1000} {
